@@ -336,6 +336,7 @@ def _run(c, binp):
         again = c.run_harness_parallel(binp, ['-cfg', json.dumps(hc)], [b], name='repro', procs=1, env=HENV)
         if not [x for x in again['violations'] if x['signature'] == v['signature']]:
             c.unreproduced('violation %s not reproduced on a second run: %s' % (v['signature'], v['detail'][:500]))
+            continue
         c.report(v['signature'], v['detail'], {'behaviour': b, 'harness': 'sidx', 'harness_cfg': hc, 'ops': ops_of(b), 'reported_as': v['signature']})
 
     # ---- 5. binding self-test: a corrupted expectation must be rejected --------------------------------------
